@@ -31,8 +31,11 @@ HashAt(j) ==
       base == Default(kind, <<41, j>>)
       f    == [base EXCEPT !["chainId"] = IF ch = 0 THEN Absent ELSE NHexQty(ChainVals[ch])]
   IN  CItem("hash", Cmd("hash", "transaction", NoAcct, <<>>, "", "file", [doc |-> MkDoc(f)]))
-Count == NLattice + NHash
-ItemAt(g) == IF g <= NLattice THEN LatticeAt(g) ELSE HashAt(g - NLattice)
+\* the guard lattice once more (first body only) under an ambient environment that names every option
+NAmbient == 3 * NChainChoices * 4
+AmbientAt(j) == LET it == LatticeAt(j) IN [it EXCEPT !.fam = "ambient_env", !.in = [it.in EXCEPT !.env = it.in.env @@ Ambient]]
+Count == NLattice + NHash + NAmbient
+ItemAt(g) == IF g <= NLattice THEN LatticeAt(g) ELSE IF g <= NLattice + NHash THEN HashAt(g - NLattice) ELSE AmbientAt(g - NLattice - NHash)
 VARIABLE n
 INSTANCE GenBase
 =============================================================================
